@@ -39,6 +39,7 @@ use self::value::SourcedValue;
 use self::value::Str;
 use self::value::Value;
 
+use crate::lexer::InterpSlot;
 use crate::lexer::Lexer;
 use crate::lexer::LexError;
 use crate::lexer::Token;
@@ -507,7 +508,6 @@ fn eval_expr(
                         scopes,
                         s,
                         slots,
-                        (line, col),
                     )
                     .context(InterpolateStringFailed)?;
                 Ok(value::new_str_from_string(v))
@@ -1606,14 +1606,12 @@ fn interpolate_string(
     context: &EvaluationContext,
     scopes: &mut ScopeStack,
     s: &str,
-    interpolation_slots: &Vec<(usize, usize)>,
-    loc: (&usize, &usize),
+    interpolation_slots: &Vec<InterpSlot>,
 )
     -> Result<String>
 {
-    let (line, col) = loc;
-    let new_loc_err = |source, col| {
-        Err(Error::AtLoc{source: Box::new(source), line: *line, col})
+    let new_loc_err = |source, (line, col): (usize, usize)| {
+        Err(Error::AtLoc{source: Box::new(source), line, col})
     };
 
     let parser = ExprParser::new();
@@ -1631,7 +1629,7 @@ fn interpolate_string(
     };
 
     for cur_slot in interpolation_slots {
-        let (cur_slot_start, cur_slot_end) = cur_slot;
+        let (cur_slot_start, cur_slot_end, slot_loc) = cur_slot;
         result.push(
             s[byte_offset(last_slot_end) .. byte_offset(*cur_slot_start)]
                 .to_string(),
@@ -1642,8 +1640,6 @@ fn interpolate_string(
         let directive =
             &s[byte_offset(cur_slot_start+2) .. byte_offset(cur_slot_end-1)];
 
-        let slot_col = col + cur_slot_start + 4;
-
         let mut lexer = Lexer::new(directive);
 
         let ast =
@@ -1653,7 +1649,7 @@ fn interpolate_string(
                     Error::InterpolateStringParseFailed{
                         source_str: render_slot_parse_error(&e),
                     },
-                    slot_col,
+                    *slot_loc,
                 ),
             };
 
@@ -1666,7 +1662,7 @@ fn interpolate_string(
                     Error::InterpolateStringEvalExprFailed{
                         source: Box::new(e),
                     },
-                    slot_col,
+                    *slot_loc,
                 ),
             };
 
@@ -1679,14 +1675,14 @@ fn interpolate_string(
                             source,
                             descr: "interpolated slot".to_string(),
                         },
-                        slot_col,
+                        *slot_loc,
                     ),
                 }
             },
             value => {
                 return new_loc_err(
                     Error::InterpolatedValueNotString{value},
-                    slot_col,
+                    *slot_loc,
                 );
             },
         }
